@@ -22,7 +22,7 @@ pub const SAT: u64 = 0x7fff_ffff;
 // operation budget cannot end it): the execution in progress is published here; a background
 // thread writes it as a `case` event to <trace>.hang and ends the process with code 97 once it
 // has been running for HANG_MS.
-pub const HANG_MS: u64 = 30_000;
+pub const HANG_MS: u64 = 15_000;
 pub static CUR_START: AtomicU64 = AtomicU64::new(0); // ms since EPOCH0 + 1; 0 = idle
 pub static CUR: Mutex<Option<(u64, &'static str, Value, Vec<u8>)>> = Mutex::new(None);
 static EPOCH0: OnceLock<Instant> = OnceLock::new();
